@@ -45,12 +45,15 @@ def gen_spd(rng, n, dense):
 def gen_history(rng, maxlen, vary_dim=True):
     k = rng.randint(1, maxlen)
     base = rng.randint(1, 6)
+    # the unit the measurements are expressed in: the statistic does not depend on it. Arc-second level angles (innovations of 1e-5, covariance
+    # entries of 1e-11, off-diagonal ones far below any absolute tolerance) are what the filters really hand over
+    unit = rng.choice([Fraction(1), Fraction(1), Fraction(1, 1000), Fraction(1, 200000), Fraction(1, 10**6), Fraction(1000)])
     h = []
     for _ in range(k):
         n = rng.randint(1, 8) if vary_dim and rng.random() < 0.6 else base
         scale = rng.choice([1, 1, 1, 4, 16])  # occasional large innovations (maneuver-like)
-        nu = [Fraction(rng.randint(-24, 24) * scale, 8) for _ in range(n)]
-        S = gen_spd(rng, n, rng.random() < 0.6)
+        nu = [Fraction(rng.randint(-24, 24) * scale, 8) * unit for _ in range(n)]
+        S = [[x * unit * unit for x in row] for row in gen_spd(rng, n, rng.random() < 0.6)]
         h.append({"nu": nu, "S": S})
     return h
 
